@@ -140,6 +140,18 @@ class HFactory(FunctorWorkerFactory):
     def create(self):
         if self.slow_create and self.created >= 1:
             self.sh.nap(self.slow_create)      # an expensive worker constructor: the pool has no live worker meanwhile
+        if WORKER_OPTS.get("prototype_copy"):
+            # a factory that configures one prototype worker and hands out shallow copies of it: the copies share the
+            # prototype's attribute objects (the begin_finished event among them)
+            import copy
+            if getattr(self, "_proto", None) is None:
+                self._proto = self.cls(self.sh, self.quota, None, -1, self.end_delay, 0, self.plan)
+            w = copy.copy(self._proto)
+            w.serial = self.created
+            w.fault = self.faults.get(self.created)
+            w.items_done = 0
+            self.created += 1
+            return w
         w = self.cls(self.sh, self.quota, self.faults.get(self.created), self.created, self.end_delay,
                      self.begin_delay if self.created % 2 == 0 else 0, self.plan)
         self.created += 1
